@@ -10,7 +10,8 @@ CONSTANTS MaxPath, Tier
 
 Vocab == [ atoms |-> [ sl |-> "/", a |-> "a", b |-> "b", app |-> "app", x |-> "x", files |-> "files", t |-> "a.txt",
                        p2F |-> "%2F", p2E |-> "%2E", p20 |-> "%20", plus |-> "+", semi |-> ";", utf |-> "%C3%A9", v1 |-> "v1", v2 |-> "v2",
-                       dots2 |-> "v1..2", dots3 |-> "..." ] ]       \* segments that merely CONTAIN adjacent dots (no dot segments: the paths stay normalised)
+                       dots2 |-> "v1..2", dots3 |-> "...",
+                       o2x |-> "oauth2-docs", o2h |-> "oauth2.html", o2u |-> "oauth2_proxy" ] ]    \* names that merely START like the proxy prefix       \* segments that merely CONTAIN adjacent dots (no dot segments: the paths stay normalised)
 
 Seg == {"a", "b", "app", "x", "p2F", "p2E", "p20", "plus", "semi", "utf"}
 Tok == Seg \cup {"sl"}
@@ -22,7 +23,8 @@ ValidPath(p) == /\ Len(p) >= 1 /\ p[1] = "sl"
 \* a few longer paths that put escapes inside the part a rewrite rule captures / below a nested prefix
 ExtraPaths == { <<"sl", "app", "sl", "a", "p2F", "b">>, <<"sl", "app", "sl", "x", "sl", "a", "p20", "b">>, <<"sl", "app", "sl", "utf", "semi", "plus">>,
                 <<"sl", "a", "sl", "b", "sl", "x", "p2F", "a">>, <<"sl", "a", "p2F", "b", "sl", "x">>, <<"sl", "app", "sl", "a", "p2E", "b">>,
-                <<"sl", "app", "sl", "dots2">>, <<"sl", "a", "sl", "dots3">>, <<"sl", "dots2">>, <<"sl", "a", "sl", "b", "sl", "dots2", "sl", "x">> }
+                <<"sl", "app", "sl", "dots2">>, <<"sl", "a", "sl", "dots3">>, <<"sl", "dots2">>, <<"sl", "a", "sl", "b", "sl", "dots2", "sl", "x">>,
+                <<"sl", "o2x", "sl", "a">>, <<"sl", "o2h">>, <<"sl", "o2u", "sl", "x">>, <<"sl", "o2x">> }
 Paths == {p \in SeqsUpTo(Tok, 1, MaxPath) : ValidPath(p)} \cup ExtraPaths
 
 Decoded(p) == [i \in 1..Len(p) |-> IF p[i] = "p2F" THEN "sl" ELSE p[i]]
